@@ -117,9 +117,10 @@ Definition tok_new (d : Z) (s a v : bool) : option tok :=
   if d <? 1 then None
   else Some (mktok [fresh_level] d [] false 0 0 0 0 s a v 0 TE_success).
 
-(* json_tokener_reset: levels depth..0 reset, depth = 0, err = success; nothing else *)
+(* json_tokener_reset: levels depth..0 reset, depth = 0, err = success, high_surrogate = 0;
+   nothing else *)
 Definition tok_reset (t : tok) : tok :=
-  set_err (set_stack t [fresh_level]) TE_success.
+  set_high (set_err (set_stack t [fresh_level]) TE_success) 0.
 
 (* ---- characters ---- *)
 Definition is_ws (c : byte) : bool := (c =? 32) || (c =? 9) || (c =? 10) || (c =? 13).
@@ -183,18 +184,15 @@ Fixpoint has_byte (c : byte) (l : list byte) : bool :=
   match l with [] => false | x :: r => (x =? c) || has_byte c r end.
 Definition last_byte (l : list byte) : byte := last l 0.
 
-(* the re-generation of the number locals at the start of a call (pb non-empty) *)
+(* the re-generation of the number locals at the start of a call (pb non-empty):
+   is_exponent iff an 'e'/'E' has been saved; a sign may follow only e, E or '.' *)
 Definition num_locals_init (p : list byte) : numloc :=
   match p with
   | [] => mknl false true false 0
   | _ =>
-      if has_byte 101 p || has_byte 69 p then
-        (* the code looks for the first 'e', else the first 'E', and asks whether it is the last char *)
-        let idx := (fix find (c : byte) (l : list byte) (i : Z) : option Z :=
-                      match l with [] => None | x :: r => if x =? c then Some i else find c r (i + 1) end) in
-        let e_loc := match idx 101 p 0 with Some i => i | None => match idx 69 p 0 with Some i => i | None => 0 end end in
-        if e_loc =? zlen p - 1 then mknl true true true 0 else mknl true false false 0
-      else mknl false true false 0
+      let lastc := last_byte p in
+      let sign_ok := (lastc =? 101) || (lastc =? 69) || (lastc =? 46) in
+      mknl (has_byte 101 p || has_byte 69 p) sign_ok sign_ok 0
   end.
 
 Definition num_char_ok (t : tok) (n : numloc) (c : byte) : bool :=
@@ -256,7 +254,9 @@ Variable strtod_bits : list byte -> Z.
 Definition classify_number (t : tok) : numres :=
   let p := pb t in
   let first := match p with c :: _ => c | [] => 0 end in
-  if negb (is_double t) && (first =? 45) then
+  let digits := if first =? 45 then tl p else p in
+  if strict t && (match digits with d0 :: d1 :: _ => (d0 =? 48) && is_digit d1 | _ => false end) then NumErr
+  else if negb (is_double t) && (first =? 45) then
     (* json_parse_int64 = strtoll: '-' then digits *)
     let body := match p with _ :: r => r | [] => [] end in
     let '(v, rest) := digits_val body 0 in
@@ -448,7 +448,7 @@ Definition step1 (t : tok) (l : locals) : sres :=
         then fail t l0 TE_number
         else
           let first := match pb t with b :: _ => b | [] => 0 end in
-          if (first =? 45) && (nl_len n <=? 1) && ((c =? 105) || (c =? 73))
+          if (first =? 45) && (zlen (pb t) =? 1) && ((c =? 105) || (c =? 73))
           then Redo (set_st_pos (set_state t S_inf) 0) l0
           else
             let t := if is_double t && negb (strict t) then set_pb t (trim_number (pb t)) else t in
@@ -477,7 +477,7 @@ Definition step1 (t : tok) (l : locals) : sres :=
       if c =? 125 then
         if tstate_eqb (st t) S_object_field_start_after_sep && strict t then fail t l TE_unexpected
         else Consumed (set_top t (mksrec S_eatws S_finish (s_cur (top t)) (s_name (top t)))) l
-      else if (c =? 34) || (c =? 39) then Consumed (set_state (set_pb (set_quote t c) []) S_object_field) l
+      else if (c =? 34) || ((c =? 39) && negb (strict t)) then Consumed (set_state (set_pb (set_quote t c) []) S_object_field) l
       else fail t l TE_object_key_name
 
   | S_object_field =>
